@@ -8,6 +8,12 @@ Line-protocol driver for the C13 models (calendar, interval calculators, query p
   zallt <c> <t> | off0 at1 off1 at2 off2 ...
                                     -> the same with time.Local = the zone with initial offset off0 (s) and
                                        transitions (UTC second, new offset): daylight-saving zones
+  validate | i1 i2 ...              -> ok | empty | duplicate        (DatabaseOption.Validate, Ahead/Behind unset)
+  segdir <interval>                 -> day | month | year            (last element of ShardIntervalSegmentPath)
+  resolve <interval> | i1 i2 ...    -> the interval of the ladder the storage resolves <interval>'s type to | none
+  istr <v>                          -> Interval.String()
+  ival <text>                       -> Interval.ValueOf(text) | err  (`_` in <text> stands for a blank)
+  windows <c> <a> <b>               -> CalcTimeWindows
   seg <c> <t>                       -> CalcSegmentTime
   fam <c> <t> <segTime>             -> CalcFamily
   fstart <c> <segTime> <family>     -> CalcFamilyStartTime
@@ -107,6 +113,35 @@ def step (st : Unit) (ws : List String) : Unit × String :=
         let start := calcFamilyStartTimeZ z c seg fam
         s!"{segmentNameZ z c t} {seg} {fam} {start} {calcFamilyEndTimeZ z c start} {calcFamilyTimeZ z c t}"
       | _, _, _, _ => "bad-op"
+    | "validate" :: "|" :: ivs =>
+      match ints ivs with
+      | some ivs =>
+        match validateOption ivs with
+        | .ok => "ok" | .empty => "empty" | .duplicate => "duplicate"
+      | none => "bad-op"
+    | ["segdir", i] =>
+      match i.toInt? with
+      | some i => segmentDirName i
+      | none => "bad-op"
+    | "resolve" :: i :: "|" :: ivs =>
+      match i.toInt?, ints ivs with
+      | some i, some ivs =>
+        match resolveByType ivs (intervalType i) with
+        | some r => toString r
+        | none => "none"
+      | _, _ => "bad-op"
+    | ["istr", v] =>
+      match v.toInt? with
+      | some v => intervalString v
+      | none => "bad-op"
+    | ["ival", txt] =>
+      match valueOf (txt.replace "_" " ") with
+      | some v => toString v
+      | none => "err"
+    | ["windows", c, a, b] =>
+      match parseCalc c, a.toInt?, b.toInt? with
+      | some c, some a, some b => toString (calcTimeWindows c a b)
+      | _, _, _ => "bad-op"
     | ["seg", c, t] =>
       match parseCalc c, t.toInt? with
       | some c, some t => toString (calcSegmentTime c t)
